@@ -221,6 +221,10 @@ func (w *World) out(i int) { w.outs[i] = true }
 func eq32(bm *roaring.Bitmap, m *model.Set32) (ok bool, detail string) {
 	defer func() {
 		if r := recover(); r != nil {
+			if addr, isFault := faultAddr(r); isFault {
+				ok, detail = false, fmt.Sprintf("FAULT@%#x memory fault while reading contents: %v", addr, r)
+				return
+			}
 			ok, detail = false, fmt.Sprintf("panic while reading contents: %v", r)
 		}
 	}()
@@ -307,9 +311,32 @@ func (w *World) checkOutput(i int, tag string) {
 	o := w.B[i]
 	ok, d := eq32(o.BM, o.M)
 	if !ok {
-		w.fail(tag, "contents", "result differs from model", fmt.Sprintf("slot %d after %s: %s", i, w.curOp, d))
+		if !w.readFault(i, d) {
+			w.fail(tag, "contents", "result differs from model", fmt.Sprintf("slot %d after %s: %s", i, w.curOp, d))
+		}
 		w.rebuild(i)
 	}
+}
+
+// readFault attributes a memory fault met while reading a bitmap's contents:
+// inside a simulated region it is that region's property (a dependency on a
+// buffer that was detached and discarded, or an over-read).
+func (w *World) readFault(slot int, detail string) bool {
+	var addr uintptr
+	if n, _ := fmt.Sscanf(detail, "FAULT@0x%x", &addr); n != 1 {
+		return false
+	}
+	o := w.B[slot]
+	if ri, reg := w.regionOf(addr); reg != nil {
+		what := "bitmap still depends on a buffer that was discarded after CloneCopyOnWriteContainers"
+		if !o.Detached {
+			what = "read outside the caller's buffer"
+		}
+		w.fail(reg.Prop, "region-fault", reg.StateName()+" "+o.Prov, fmt.Sprintf("reading slot %d (%s, detached=%v) after %s faults at %#x inside region %d (%s, %s): %s", slot, o.Prov, o.Detached, w.curOp, addr, ri, reg.Kind, reg.StateName(), what))
+		return true
+	}
+	w.fail(w.curTag, "panic", "memory fault outside regions while reading contents", detail)
+	return true
 }
 
 // afterStep evaluates the world invariants.
@@ -334,7 +361,22 @@ func (w *World) afterStep(primaryTag string) {
 		}
 		ok, d := eq32(o.BM, o.M)
 		if !ok {
-			w.fail("C07", "bystander", "bitmap not involved as output changed", fmt.Sprintf("slot %d (%s) changed during %s: %s", i, o.Prov, w.curOp, d))
+			if !w.readFault(i, d) {
+				switch {
+				case w.curOp == "gc" && (o.Frozen || len(o.Regions) > 0):
+					// nothing but a collection happened: a lifetime bug of a zero-copy bitmap
+					// (C08 "keeps behaving as a correct set", C13 "supports copying writes")
+					tag := "C08"
+					if w.Cfg.Prop == "C13" && o.Frozen {
+						tag = "C13"
+					}
+					w.fail(tag, "gc-lifetime", "contents changed across a garbage collection ("+o.Prov+")", fmt.Sprintf("slot %d (%s) changed during a collection: %s", i, o.Prov, d))
+				case w.curOp == "gc":
+					w.fail("C02", "gc-lifetime", "contents changed across a garbage collection ("+o.Prov+")", fmt.Sprintf("slot %d (%s) changed during a collection: %s", i, o.Prov, d))
+				default:
+					w.fail("C07", "bystander", "bitmap not involved as output changed", fmt.Sprintf("slot %d (%s) changed during %s: %s", i, o.Prov, w.curOp, d))
+				}
+			}
 			w.rebuild(i)
 		}
 	}
